@@ -59,4 +59,28 @@ CHECKS = {
   "technique": "TLA+ model checking (TLC) + exhaustive replay of TLC tables/behaviours into the real layer",
   "ref": "DESIGN.md 5/C20",
  },
+ "C02": {
+  "text": "AnemoRpc (one stream per call: open under stream credit, write, finish, abandon at any stage, accept, invoke only complete requests, stop-watch, respond, credit return, connection loss) is model-checked for 3 calls / credit 2 (AtMostOnce, OnlyCompleteRequests, OkMeansHandled; spec mutant refuted); workloads of ~80 concurrent calls per run in both directions on one connection plus a third node - bodies 0 B..4 MB, random routes and header maps, response sizes, handler delays that permute completion order - run fault-free and under datagram loss <= 20%, duplication and reordering; AnemoRpcTrace ties caller's request, handler's view, handler's reply and caller's result together by nonce: the handler is invoked at most once with exactly the request sent, an Ok result is exactly the reply produced for that nonce (status, length, body digest, header digest), identities seen are the connection's, every call that must succeed does, none hangs.",
+  "note": "Bodies are compared through length + SHA-256 prefix; quinn's stream machinery is exercised, not modelled.",
+  "technique": "TLA+ model checking (TLC) + trace validation of concurrent RPC workloads under datagram faults",
+  "ref": "DESIGN.md 5/C02",
+ },
+ "C11": {
+  "text": "The deadline table Chosen(default, header) = min with absent/unparsable as none is part of AnemoRpcTrace; runs with every combination of inbound default {none,300,800 ms} x outbound default {none,400,900 ms} on the three nodes, timeout header {absent, 200 ms, 700 ms, 5 s, 0, u64::MAX, overflowing, garbage} and handler duration {0..1200 ms} are recorded in virtual time: each timeout layer's logged decision (tmo.set) must equal the table applied to the node's configured default and the raw header; a handler needing longer is dropped at start+deadline and answered RequestTimeout, the caller's error comes at call+deadline, and no handler answer gets through past a deadline (CannotExtend).",
+  "note": "Fault-free, 1 ms links, 60 ms slack on timing equalities.",
+  "technique": "TLA+ trace validation of a decision-table-driven timeout workload (virtual time) + TLC model of the stream protocol",
+  "ref": "DESIGN.md 5/C11",
+ },
+ "C12": {
+  "text": "AnemoRpc is model-checked with hanging handlers (NoOrphanHandler, NoLeak, NoStuckCaller at quiescence; the no-stop-watch spec mutant is refuted); real calls are abandoned at every stage - held at schedule gates before open_bi, after it, after writing the request, after finish, or dropped after 0-150 ms - about 50 abandonments per run against a stream limit of 8, interleaved with calls that must succeed, fault-free and under loss; AnemoRpcTrace requires every started handler of an abandoned call to be dropped within 250 ms (fault-free) and not to complete later, every non-abandoned call to get its own correct result, and fresh calls after the storm to succeed.",
+  "note": "Promptness is timed only in fault-free runs; under loss the requirement is that capacity is not exhausted.",
+  "technique": "TLA+ model checking (TLC) + gate-driven abandonment at every stage + trace validation",
+  "ref": "DESIGN.md 5/C12",
+ },
+ "C15": {
+  "text": "AnemoRpcTrace carries the size verdict: a call succeeds iff all four frames (request header/body, response header/body; header sizes from the bincode layout) fit the limits of both ends, an oversized request never reaches the handler, and only that call fails; runs place limits of 64 B / 4 KiB / 1 MiB on caller only, callee only, both, or different on each side and hit each frame at limit-2..limit+2 and +40; with no limit configured sizes around 8 MiB are sent. The 8 MiB default cap that applies when no maximum is configured is a listed known finding.",
+  "note": "Known finding C15 nolimit:frame-over-8MiB-refused is reported as KNOWN-FINDING; any other size verdict mismatch is a violation.",
+  "technique": "TLA+ trace validation of boundary-size workloads + TLC model of the stream protocol",
+  "ref": "DESIGN.md 5/C15",
+ },
 }
